@@ -115,6 +115,33 @@ func declFieldsDecodedOnly(c *core.Ctx, rule string, pkgs []string, allowed map[
 // token / empty unit obtained from the source. Manufacturing io.EOF behind a test of reader-private flags or of the
 // record's content (seed C04-11: "unique target delivered", seed C09-8: Ctrl-Z line and empty buffer) ends the stream
 // while input remains.
+// manufacturedEOFDeclExhausted: additionally accept "declaration list exhausted" as evidence (set only for the old readers, R16j).
+var manufacturedEOFDeclExhausted bool
+
+// declOwnerHasJSONTag: the field carries a json tag (it is part of a schema declaration).
+func declOwnerHasJSONTag(fl *types.Var) bool {
+	if fl == nil || fl.Pkg() == nil {
+		return false
+	}
+	scope := fl.Pkg().Scope()
+	for _, name := range scope.Names() {
+		tn, ok := scope.Lookup(name).(*types.TypeName)
+		if !ok {
+			continue
+		}
+		st, ok := tn.Type().Underlying().(*types.Struct)
+		if !ok {
+			continue
+		}
+		for i := 0; i < st.NumFields(); i++ {
+			if st.Field(i) == fl {
+				return strings.Contains(st.Tag(i), "json:")
+			}
+		}
+	}
+	return false
+}
+
 func manufacturedEOF(c *core.Ctx, rule string, pkgs []string, floor int) {
 	c.SSA()
 	ioPkg := c.AnyPkg("io")
@@ -170,6 +197,24 @@ func manufacturedEOF(c *core.Ctx, rule string, pkgs []string, floor int) {
 			}
 			switch x := cond.(type) {
 			case *ssa.BinOp:
+				if manufacturedEOFDeclExhausted && (x.Op == token.GEQ || x.Op == token.LSS) {
+					// `index >= len(<json-tagged declaration slice>)`: every declared alternative was tried (old fixed-length
+					// reader: a line that starts no declared envelope ends the stream — by design, pinned by its tests)
+					if call, ok := x.Y.(*ssa.Call); ok {
+						if bi, ok := call.Call.Value.(*ssa.Builtin); ok && bi.Name() == "len" && len(call.Call.Args) == 1 {
+							if fp, ok := core.LoadedField(call.Call.Args[0]); ok && len(fp.Path) > 0 {
+								last := fp.Path[len(fp.Path)-1]
+								if owner := declOwnerHasJSONTag(last); owner {
+									if x.Op == token.GEQ {
+										mark(tEdge, "every declared alternative was tried")
+									} else {
+										mark(fEdge, "every declared alternative was tried")
+									}
+								}
+							}
+						}
+					}
+				}
 				if x.Op == token.EQL || x.Op == token.NEQ {
 					eq, ne := tEdge, fEdge
 					if x.Op == token.NEQ {
